@@ -171,7 +171,8 @@ class Loop:
     invariant: name of a clause function inv(k, done, xs, <vars by name>, <inputs by name>) -> bool;
     cells: {local name: Kind} mutable cells (lists / dicts) the body mutates in place."""
 
-    def __init__(self, invariant, vars=None, cells=None, decreases=None, attrs=None, step=None):
+    def __init__(self, invariant, vars=None, cells=None, decreases=None, attrs=None, step=None, fs=False):
+        self.fs = fs                # the body changes the ghost file system: it is havocked at the loop head (invariant gets fs, fs_loop0)
         self.step = step or {}      # {clause name: function} checked at the end of an arbitrary iteration; `trace` = this iteration's events
         self.invariant = invariant
         self.vars = vars or {}
